@@ -71,7 +71,8 @@ EXPLANATION = ("structure theorems over the transliterated formatters; totality 
 SKIP_FIELDS = {"timestamp", "task_uuid", "task_level", "message_type", "action_type", "action_status"}
 FIRST_FIELDS = ["action_type", "message_type", "action_status"]
 REQUIRED = ["task_level", "task_uuid", "timestamp"]
-DEEP = 450
+DEEP = 450      # pprint gives up from about 330 levels (inside this harness); json.loads / json.dumps cope up to about 1200
+SHALLOW = 300   # ... and must cope below that: lines nested 100, 200, 280 deep are ordinary input
 DEFAULT_RECURSION_LIMIT = sys.getrecursionlimit()
 TZ = "XVT-05:45"  # POSIX TZ string: fixed offset UTC+5:45, needs no tzdata (also the zone of cases recorded before zones were varied)
 # the reader's own time zone is part of "all environments": UTC, fixed offsets, zones with daylight saving on either hemisphere.
@@ -226,6 +227,8 @@ def tolerated_lines(rng):
     d = dict(base, timestamp=-1.5)
     out.append(json.dumps(d).encode() + b"\n")
     out.append(bytes(rng.randrange(256) for _ in range(rng.randint(1, 12))).replace(b"\n", b"?") + b"\n")
+    for d in (100, 200, 280):
+        out.append(b'{"task_uuid":"u","task_level":[1],"timestamp":1.0,"x":' + b"[" * d + b"]" * d + b"}\n")
     # a file name decoded with surrogateescape, logged by a producer that escapes it; a line separator inside a value
     out.append(b'{"task_uuid":"u","task_level":[1],"timestamp":1.0,"path":"caf\\udce9","message_type":"m"}\n')
     out.append(b'{"task_uuid":"u","task_level":[1],"timestamp":1.0,"text":["a\\u2028b","\\ud83d"]}\n')
@@ -341,7 +344,7 @@ def real_format(m, compact, local):
     try:
         return {"ok": f(dict(m), local)}
     except Exception as e:  # noqa
-        return {"raises": type(e).__name__}
+        return {"raises": type(e).__name__, "ill_typed": isinstance(e, (TypeError, ValueError, OverflowError, OSError))}
 
 
 def real_cli(data, compact, local):
@@ -518,12 +521,14 @@ def oracle_pretty(m, text, local):
 
 
 def oracle_compact(m, text, local):
-    if "\n" in text:
+    err, key = oracle_compact_parts(m, text, local)
+    if err is None and "\n" in text:
         names = [k for k in m if "\n" in k and k not in SKIP_FIELDS]
-        if names:
+        if names and text.count("\n") == sum(k.count("\n") for k in names):
+            # every part is in place and right; the only line breaks are the ones inside field names
             return "compact output spans several lines (field name %r contains a newline)" % names[0], {"field_name_contains": "newline", "format": "compact"}
         return "compact output spans several lines", {}
-    return oracle_compact_parts(m, text, local)
+    return err, key
 
 
 def oracle_compact_parts(m, text, local):
@@ -616,7 +621,7 @@ def abort_key(line, compact, local):
             if where:
                 return {"line": "lone-surrogate", "where": where}
             return {"line": "lone-surrogate-in-value", "format": "compact" if compact else "pretty"}
-    shallow = {k: (x if depth(x) < 100 else []) for k, x in v.items()}
+    shallow = {k: (x if depth(x) < SHALLOW else []) for k, x in v.items()}
     if shallow != v and real_cli(json.dumps(shallow).encode() + b"\n", compact, local)["abort"] is None:
         return {"line": "deeply-nested-value", "format": "compact" if compact else "pretty"}
     for f, good in (("task_level", [1]), ("timestamp", 1.0), ("task_uuid", "u")):
@@ -647,6 +652,9 @@ def expected_chunk(line, compact, local):
     if "ok" in r:
         # names, uuid and level are written as they are; what a UTF-8 stream cannot encode appears escaped
         return (r["ok"] + "\n").encode("utf-8", "backslashreplace").decode("utf-8")
+    if r.get("ill_typed"):
+        # the three required fields are there, but with values no Eliot message has: reported like any other foreign line
+        return "Not an Eliot message: %s\n\n" % stripped
     return None
 
 
@@ -839,6 +847,7 @@ def run_one(ctx, c, mo):
         return
     if c["kind"] == "format":
         obs = real_format(c["msg"], c["compact"], c["local"])
+        obs.pop("ill_typed", None)
         model = {"ok": from_cp(mo["ok"])} if "ok" in mo else mo
         ctx.case(c, nontrivial=nontrivial_msg(c["msg"]), tags=["kind:format", "format:" + ("compact" if c["compact"] else "pretty"),
                                                                "tz:" + ("local" if c["local"] else "utc"), "fields:%d" % min(len(c["msg"]), 9)])
